@@ -275,6 +275,10 @@ func Values(k Kind, thorough bool) []Val {
 		for _, t := range []string{" lead", "trail \r\n", " ", "\ta\n", "x\x00"} {
 			out = append(out, Val{K: k, S: []byte(t)})
 		}
+		// text that begins with (or is) a UTF-8 byte order mark, and multi-byte text: octets like any other
+		for _, t := range []string{"\xef\xbb\xbfx", "\xef\xbb\xbf", "\xc3\xa9\xe2\x82\xac\xf0\x9f\x98\x80"} {
+			out = append(out, Val{K: k, S: []byte(t)})
+		}
 	case KUnknown:
 		for _, n := range []int{0, 1, 2, 3, 4, 5, 8, 9} {
 			out = append(out, Val{K: k, S: rep(0xf0, n)})
